@@ -413,7 +413,7 @@ class CentrallyBin(Factory, Container):
         weights[selection] = 0.0
 
         if (
-            all(isinstance(v, Count) and v.transform is identity for c, v in self.bins)
+            all(isinstance(v, Count) and v.transform == identity for c, v in self.bins)
             and np.all(np.isfinite(q))
             and np.all(np.isfinite(weights))
         ):
